@@ -663,6 +663,13 @@ class C01(Suite):
             msg = wrap
         want = render_fields(msg, svc_level=(c["kind"] == "svc"))
         got = dict(x.split("=", 1) for x in out.split("|")[0].split(";"))
+        fo = c["msg"].get("forward_open") if isinstance(c["msg"], dict) else None
+        if c["kind"] == "svc" and fo and "service" not in c["msg"] and all("size" in fo.get(s_, {}) for s_ in ("O_T", "T_O")):
+            # the layout tables: the 16-bit parameter word has a 9-bit size field, so sizes up to 511 travel in a
+            # Forward Open (0x54) and only a larger one needs the Large Forward Open (0x5B)
+            need = 0x5b if max(fo["O_T"]["size"], fo["T_O"]["size"]) > 511 else 0x54
+            if got.get("service") != str(need):
+                return f"Forward Open with sizes {fo['O_T']['size']}/{fo['T_O']['size']} produced as service {got.get('service')}, the layout tables give {need}"
         for k, v in want.items():
             if k in ("service",) and k not in c["msg"]:
                 continue
